@@ -499,6 +499,11 @@ func main() {
 		c.Internal("own langViews encoder broken: %s", got)
 	}
 
+	type pendingV struct {
+		key, what string
+		replay    map[string]any
+	}
+	var pending []pendingV // reported in sorted order after the parallel phase, so the run is reproducible
 	judge := func(k caseT, variant string, b *built, decl int, declared []byte, v verdict, txb []byte, required bool, exp []byte) {
 		out := "decoder-rejected"
 		if v.decoded {
@@ -547,9 +552,11 @@ func main() {
 		}
 		tl.keyCases[key][k.String()] = true
 		tl.mu.Unlock()
-		c.Violation(key, fmt.Sprintf("%s %s declared=%s (%x): script-data-hash rule passes; required=%v, specified hash=%x", k, variant, declNames[decl], declared, required, exp),
+		tl.mu.Lock()
+		pending = append(pending, pendingV{key, fmt.Sprintf("%s %s declared=%s (%x): script-data-hash rule passes; required=%v, specified hash=%x", k, variant, declNames[decl], declared, required, exp),
 			map[string]any{"era": k.era, "langs": k.langs, "prov": k.prov, "rform": k.rform, "datums": k.datums, "dtagged": k.dtagged, "table": k.table,
-				"extra": k.extra, "variant": variant, "declared_kind": decl, "declared": hex.EncodeToString(declared), "tx_cbor": hex.EncodeToString(txb)})
+				"extra": k.extra, "variant": variant, "declared_kind": decl, "declared": hex.EncodeToString(declared), "tx_cbor": hex.EncodeToString(txb)}})
+		tl.mu.Unlock()
 	}
 
 	runCase := func(k caseT, b *built, variant string, canonicalHash []byte) {
@@ -607,6 +614,15 @@ func main() {
 		}
 	})
 
+	sort.Slice(pending, func(i, j int) bool {
+		if pending[i].key != pending[j].key {
+			return pending[i].key < pending[j].key
+		}
+		return pending[i].what < pending[j].what
+	})
+	for _, p := range pending {
+		c.Violation(p.key, p.what, p.replay)
+	}
 	c.Add("specified_hash_refused", 0)
 	c.Set("cases", len(jobs))
 	if len(tl.keyCases) > 0 {
